@@ -242,8 +242,8 @@ def finish(pid, tier, seed, mod, shards, wall):
             "known_findings_hit": {m: len(v) for m, v in known_hits.items()},
             "inconclusive_reasons": reasons,
             "dead_shards": len(dead), "harness_errors": len(harness_errors), "cases_not_run": not_run,
-            "exhaustive": bool(getattr(mod, "EXHAUSTIVE", {}).get(tier, False)),
-            "exhaustive_note": getattr(mod, "EXHAUSTIVE_NOTE", ""),
+            "exhaustive": False,  # no run enumerates its whole input space; some enumerate a finite sub-space completely:
+            "exhaustive_subspace": getattr(mod, "EXHAUSTIVE_NOTE", "") if getattr(mod, "EXHAUSTIVE", {}).get(tier, False) else "",
             "repo": env.REPO,
         },
         "assumptions": list(getattr(mod, "ASSUMPTIONS", [])),
